@@ -5,6 +5,7 @@ import Driver.Lex
 import Driver.Parse
 import Driver.Query
 import Driver.Stmts
+import Driver.Fuzz
 
 def main (args : List String) : IO UInt32 := do
   match args with
@@ -15,6 +16,7 @@ def main (args : List String) : IO UInt32 := do
   | ["parse"] => Driver.Parse.main; return 0
   | ["query", mode] => Driver.Query.main mode; return 0
   | ["stmts"] => Driver.Stmts.main; return 0
+  | ["fuzz"] => Driver.Fuzz.main; return 0
   | _ =>
     IO.eprintln "usage: bwdriver <protocol>"
     return 2
